@@ -837,6 +837,20 @@ func c17History(t *testing.T, rec *vlib.Rec, idx int) {
 	h := &c17Hist{t: t, rec: rec, idx: idx, r: r, n: n, m: c17NewModel(), apiUUID: map[c17PathKey]uuid.UUID{}, apiVrf: map[c17PathKey]*apiutil.Path{},
 		events: map[string]int{}, last: map[string]c17Ev{}, keyRTs: map[string]map[string]bool{}, rxMark: map[string][]int{},
 		since: map[string]map[simRouteKey]c17Since{}, gone: map[string]map[simRouteKey]c17Gone{}, tagKey: map[uint32]c17PathKey{}, tagDied: map[uint32]int{}, apiRel: map[string]map[string]bool{}}
+	defer func() { // what was exercised is recorded also when the history ends at a violation
+		for k, v := range h.events {
+			rec.Count("ev_"+k, v)
+		}
+		rec.Count("membership_or_vrf_changes", h.allChg)
+		rec.Count("membership_changes", h.nMemChg)
+		rec.Count("vrf_changes", h.nVrfChg)
+		if h.collide {
+			rec.Count("histories_with_prefix_collisions", 1)
+		}
+		if h.rtcPolicy {
+			rec.Count("histories_with_rtc_import_policy", 1)
+		}
+	}()
 	h.rtcPolicy = r.IntN(2) == 0
 	h.collide = r.IntN(6) == 0
 	h.genVrfs()
@@ -900,18 +914,7 @@ func c17History(t *testing.T, rec *vlib.Rec, idx int) {
 			}
 		}
 	}
-	for k, v := range h.events {
-		rec.Count("ev_"+k, v)
-	}
-	rec.Count("membership_or_vrf_changes", h.allChg)
-	rec.Count("membership_changes", h.nMemChg)
-	rec.Count("vrf_changes", h.nVrfChg)
-	if h.collide {
-		rec.Count("histories_with_prefix_collisions", 1)
-	}
-	if h.rtcPolicy {
-		rec.Count("histories_with_rtc_import_policy", 1)
-	}
+	rec.Count("histories_run_to_the_end", 1)
 	if idx%97 == 0 {
 		w := h.witness("end")
 		if hist := w["history"].([]string); len(hist) > 25 {
